@@ -10,7 +10,9 @@ from the events of Model/Pipeline.lean; after every op the model is run to quies
            call w (writerWrite, whatever happened to the deadline meanwhile)
     E w…   virtual time passes the deadlines of the calls w…   (timerFired w, deadlinePassed w, [returnTimeout w])
     P      the server answers the oldest outstanding request on the live connection   (readerOk)
-    X      the server closes the connection (the reader fails as soon as it waits for a response)
+    X      the server closes the connection (the reader fails as soon as it waits for a response);  X 1: and the
+           worker's conn.Close() that follows the reader's exit is slow to start — until   R   the writer has not been
+           told to stop: it keeps taking, writing and queueing new items (chR is drained only after BOTH have stopped)
     D      the worker's pending dial succeeds (restart)         F   it fails (the worker dials again)
     Y      the reader's ReadTimeout expires (readerFail with ErrTimeout: the connection is dropped, the late response
            can never be handed to a later request)              W   the worker's 1s pause after a timeout error ends
@@ -30,6 +32,7 @@ structure PlD where
   dead : Bool                  -- the server closed the live connection
   seen : List Nat
   rets : List (Nat × String)
+  held : Bool := false         -- the worker is held inside conn.Close (before it takes effect): stopW is not closed yet
   gated : List Nat := []       -- calls whose request body stream is still held back by the harness
   rdTO : List Nat := []        -- items whose read failed with ErrTimeout (PipelineClient.ReadTimeout): class "timeout"
 
@@ -69,7 +72,7 @@ def plSettleOnce (d : PlD) : Option (Option PlD) :=
   | .idle =>
     if !s.chW.isEmpty then (plStep d .writerTake).map some
     else if s.armed then (plStep d .writerFlush).map some
-    else if s.stopping then (plStep d .writerStop).map some
+    else if s.stopping && !d.held then (plStep d .writerStop).map some
     else
       -- 4.. reader and worker below
       match s.reader with
@@ -98,7 +101,7 @@ def plSettleOnce (d : PlD) : Option (Option PlD) :=
       match s.reader with
       | .idle => if !s.chR.isEmpty then (plStep d .readerTake).map some else some none
       | .reading _ => if d.dead then (plStep d .readerFail).map some else some none
-      | .exited => if s.stopping then (plStep d .writerStop).map some else some none
+      | .exited => if s.stopping && !d.held then (plStep d .writerStop).map some else some none
   | .exited =>
     match s.reader with
     | .idle =>
@@ -145,7 +148,8 @@ def plOp (d : PlD) (code : Char) (ns : List Nat) : Option PlD :=
       | none => none
   | 'E' => ns.foldlM plExpire d
   | 'P' => plStep d .readerOk
-  | 'X' => some { d with dead := true }
+  | 'X' => some { d with dead := true, held := ns == [1] }
+  | 'R' => some { d with held := false }
   | 'D' => (plStep d .restart).map fun d1 => { d1 with dead := false }
   | 'F' => some d
   | 'Y' =>
